@@ -369,6 +369,60 @@ template<class T> struct Driver {
     }
     for (int i = 0; i < NS; i++) if (sk[i]) obs(i);
   }
+  // Adversarial with respect to the table layout: keys are MINED by their home slot in the real table (slot =
+  // fmix64(hash(key)) & (size - 1), computed with the library's own hasher: the home slot is a mechanism detail, used only
+  // to choose inputs - the contract still sees items and weights only).  One key per slot, capacity + 1 of them, so the last
+  // insert purges with every key sitting in its home slot: "light keys in the last quarter of the slots, light and heavy
+  // keys half and half in the first three quarters" and the mirror image, heavy weight large enough that a purge taking a
+  // heavy counter as its median would exceed epsilon * total weight.
+  void slot_segment(long seg) {
+    Ev("Begin").i("seg", seg).str("type", Codec<T>::name()).b("slots", true).emit();
+    rev.clear();
+    for (int i = 0; i < NS; i++) { sk[i].reset(); prev[i].clear(); ver[i] = 0; restored[i] = false; }
+    for (int b = 0; b < NB; b++) blive[b] = false;
+    twin_a = twin_b = -1; twin_left = 0; profile = 1; bigseg = false;
+    U = 8;
+    for (int i = 0; i < NS; i++) {
+      int lg = (int)g.range(5, 8);
+      uint32_t size = 1u << lg, mask = size - 1, nkeys = size * 3 / 4 + 1;
+      std::vector<long> key_for_slot(size, -1); uint32_t found = 0;
+      for (long idx = 1 + (long)g.below(50); found < size; idx++) {
+        T v = item(idx);
+        uint32_t slot = (uint32_t)(fmix64(std::hash<T>()(v)) & mask);
+        if (key_for_slot[slot] < 0) { key_for_slot[slot] = idx; found++; }
+        U = std::max(U, idx);
+      }
+      bool mirror = g.chance(35);
+      uint32_t hidden = size - nkeys, low = nkeys - hidden, nlow_light = low / 2, nheavy = low - nlow_light, nlight = hidden + nlow_light;
+      // a heavy median would violate epsilon when H > (3.5/size * nlight) / (1 - 3.5/size * nheavy)
+      double bound = (3.5 / size * nlight) / (1.0 - 3.5 / size * nheavy);
+      long H = std::max((long)(2 * bound) + 2, (long)g.range(100, 20000));
+      std::vector<std::pair<long, long>> st;
+      for (uint32_t sl = nkeys; sl < size; sl++) st.emplace_back(key_for_slot[sl], mirror ? H : 1);
+      for (uint32_t sl = 0; sl < low; sl++) st.emplace_back(key_for_slot[sl], ((sl < nlow_light) != mirror) ? 1 : H);
+      for (size_t k = st.size(); k > 1; k--) std::swap(st[k - 1], st[g.below(k)]);
+      mk(i, lg, g.chance(50) ? lg : 3);
+      for (auto& u : st) do_update(i, u.first, u.second, g.chance(30));
+      obs(i);
+      // a second round right at the next purge point: refill the freed slots with fresh light keys of those slots
+      if (g.chance(60)) {
+        auto r = rows(*sk[i]); std::vector<bool> taken(size, false);
+        for (auto& x : r) { T v = item(x.x); taken[(uint32_t)(fmix64(std::hash<T>()(v)) & mask)] = true; }
+        long need = (long)nkeys - (long)r.size(); std::vector<long> fresh;
+        for (long idx = U + 1; (long)fresh.size() < need && idx < U + 20000; idx++) {
+          T v = item(idx); uint32_t slot = (uint32_t)(fmix64(std::hash<T>()(v)) & mask);
+          if (!taken[slot]) { taken[slot] = true; fresh.push_back(idx); }
+        }
+        if (!fresh.empty()) U = std::max(U, fresh.back());
+        for (long x : fresh) do_update(i, x, g.chance(50) ? 1 : g.range(1, 3), g.chance(30));
+        obs(i);
+      }
+    }
+    for (int k = 0; k < 6; k++) {
+      int a = (int)g.below(NS), b = (int)g.below(NS);
+      if (a != b && sk[a] && sk[b] && fits(a, (long long)sk[b]->get_total_weight())) { do_merge(a, b, false); obs(a); }
+    }
+  }
   void start_twin(int a, int b) { twin_a = a; twin_b = b; twin_left = g.range(8, 40); twin_obs(); }
   void twin_obs() { Ev("TwinObs").i("a", twin_a).i("b", twin_b).b("restored", true).emit(); }
 };
@@ -410,6 +464,7 @@ int main(int argc, char** argv) {
   int maxlg = (int)vt::argl(argc, argv, "--maxlg", 8);
   int serde_pct = (int)vt::argl(argc, argv, "--serde", 3);
   long big = vt::argl(argc, argv, "--big", 0);
+  long slotadv = vt::argl(argc, argv, "--slotadv", 0);
   vt::open_out(vt::arg(argc, argv, "--out", "/dev/stdout"));
   vt::Rng g(seed);
   const char* rdir = vt::arg(argc, argv, "--replay-dir", nullptr);
@@ -427,6 +482,10 @@ int main(int argc, char** argv) {
     bool b = seg < big;
     if ((seg + seed) % 2 == 0) { Driver<int64_t> d(g, serde_pct); d.segment(seg, events, maxlg, b); }
     else { Driver<std::string> d(g, serde_pct); d.segment(seg, events, maxlg, b); }
+  }
+  for (long k = 0; k < slotadv && !rdir; k++) {
+    if ((k + seed) % 2 == 0) { Driver<int64_t> d(g, serde_pct); d.slot_segment(500 + k); }
+    else { Driver<std::string> d(g, serde_pct); d.slot_segment(500 + k); }
   }
   vt::close_out();
   fprintf(stderr, "fi_rec: %ld events\n", vt::g_events);
